@@ -1,11 +1,412 @@
 package main
 
 import (
+	"encoding/json"
+	"flag"
 	"fmt"
-
-	_ "golang.org/x/tools/go/packages"
-	_ "golang.org/x/tools/go/ssa"
-	_ "golang.org/x/tools/go/ssa/ssautil"
+	"os"
+	"path/filepath"
+	"runtime"
+	"sort"
+	"strings"
+	"time"
 )
 
-func main() { fmt.Println("govc") }
+var verifDir = "/verif"
+
+func main() {
+	if len(os.Args) < 2 {
+		fmt.Println("usage: govc ssa <funckey> | fn <funckey> | check -prop Cxx [-tier quick|thorough] | list")
+		os.Exit(2)
+	}
+	if d := os.Getenv("GOVC_VERIF"); d != "" {
+		verifDir = d
+	}
+	if d := os.Getenv("GOVC_REPO"); d != "" {
+		repoDir = d
+	}
+	defer cleanupScratch()
+	switch os.Args[1] {
+	case "ssa":
+		p, err := loadProgram([]string{"./..."})
+		if err != nil {
+			fmt.Println(err)
+			os.Exit(2)
+		}
+		dumpSSA(p, os.Args[2])
+	case "fn":
+		cmdFn(os.Args[2:])
+	case "check":
+		code := cmdCheck(os.Args[2:])
+		cleanupScratch()
+		os.Exit(code)
+	case "list":
+		cmdList()
+	default:
+		fmt.Println("unknown command")
+		os.Exit(2)
+	}
+}
+
+func loadAll() (*Program, *Specs, error) {
+	p, err := loadProgram([]string{"./..."})
+	if err != nil {
+		return nil, nil, err
+	}
+	sp, err := loadSpecs(specFiles(repoDir, verifDir))
+	if err != nil {
+		return nil, nil, err
+	}
+	return p, sp, nil
+}
+
+func cmdList() {
+	_, sp, err := loadAll()
+	if err != nil {
+		fmt.Println(err)
+		os.Exit(2)
+	}
+	var ks []string
+	for k := range sp.Funcs {
+		ks = append(ks, k)
+	}
+	sort.Strings(ks)
+	for _, k := range ks {
+		f := sp.Funcs[k]
+		fmt.Printf("%-60s %-8s props=%v safety=%v req=%d ens=%d\n", k, f.Kind, f.Props, f.Safety, len(f.Requires), len(f.Ensures))
+	}
+}
+
+// cmdFn verifies one function and prints every obligation (debugging aid).
+func cmdFn(args []string) {
+	fs := flag.NewFlagSet("fn", flag.ExitOnError)
+	timeout := fs.Int("timeout", 10, "per-obligation timeout (s)")
+	dump := fs.String("dump", "", "write the queries of failing obligations to this directory")
+	all := fs.Bool("all", false, "also run unclaimed safety obligations")
+	fs.Parse(args[1:])
+	key := args[0]
+	prog, sp, err := loadAll()
+	if err != nil {
+		fmt.Println(err)
+		os.Exit(2)
+	}
+	if prog.Funcs[key] == nil {
+		dumpSSA(prog, key)
+		os.Exit(2)
+	}
+	res := verifyFunction(prog, sp, key)
+	if res.Fatal != "" {
+		fmt.Println("FATAL:", res.Fatal)
+	}
+	spec := sp.Funcs[key]
+	var run []*Obligation
+	for _, o := range res.Obls {
+		if o.Kind == "safe" && !*all && !claimsSafety(spec, o.Sub) {
+			continue
+		}
+		run = append(run, o)
+	}
+	dischargeAll(run, *timeout, runtime.NumCPU())
+	for _, o := range run {
+		st := "?"
+		if o.Result != nil {
+			st = o.Result.Status
+		}
+		mark := "ok  "
+		if !o.Held() {
+			mark = "FAIL"
+		}
+		secs := 0.0
+		solver := ""
+		if o.Result != nil {
+			secs = o.Result.Secs
+			solver = o.Result.Solver
+		}
+		fmt.Printf("%s %-70s %-8s %-7s %5.2fs %s  %s\n", mark, o.Name, st, solver, secs, o.Pos, trunc(o.Text, 70))
+		if !o.Held() && *dump != "" {
+			os.MkdirAll(*dump, 0o755)
+			os.WriteFile(filepath.Join(*dump, sanitize(o.Name)+".smt2"), []byte(o.Query+"(get-model)\n"), 0o644)
+			if o.Result != nil {
+				os.WriteFile(filepath.Join(*dump, sanitize(o.Name)+".out"), []byte(o.Result.Raw), 0o644)
+			}
+		}
+	}
+	var ws []string
+	for w, n := range res.Warns {
+		ws = append(ws, fmt.Sprintf("%s (x%d)", w, n))
+	}
+	sort.Strings(ws)
+	for _, w := range ws {
+		fmt.Println("warn:", w)
+	}
+	for _, t := range res.Trusted {
+		fmt.Println("trusted:", t)
+	}
+	fmt.Printf("generated in %.2fs, %d obligations run\n", res.GenSecs, len(run))
+}
+
+func trunc(s string, n int) string {
+	if len(s) > n {
+		return s[:n] + "…"
+	}
+	return s
+}
+
+func claimsSafety(spec *FuncSpec, sub string) bool {
+	if spec == nil {
+		return false
+	}
+	for _, s := range spec.Safety {
+		if s == sub {
+			return true
+		}
+	}
+	return false
+}
+
+func hasProp(props []string, p string) bool {
+	for _, x := range props {
+		if x == p {
+			return true
+		}
+	}
+	return false
+}
+
+// specServes reports whether a function's contract has anything tagged with the property.
+func specServes(f *FuncSpec, prop string) bool {
+	if hasProp(f.Props, prop) {
+		return true
+	}
+	for _, c := range f.Requires {
+		if hasProp(c.Props, prop) {
+			return true
+		}
+	}
+	for _, c := range f.Ensures {
+		if hasProp(c.Props, prop) {
+			return true
+		}
+	}
+	for _, l := range f.Loops {
+		for _, c := range l.Invariants {
+			if hasProp(c.Props, prop) {
+				return true
+			}
+		}
+	}
+	return false
+}
+
+type oblReport struct {
+	Name   string  `json:"name"`
+	Kind   string  `json:"kind"`
+	Status string  `json:"status"`
+	Solver string  `json:"solver"`
+	Secs   float64 `json:"secs"`
+	Pos    string  `json:"pos,omitempty"`
+	Text   string  `json:"text,omitempty"`
+	Bytes  int     `json:"smt_bytes,omitempty"`
+}
+
+func cmdCheck(args []string) int {
+	fs := flag.NewFlagSet("check", flag.ExitOnError)
+	prop := fs.String("prop", "", "property id")
+	tier := fs.String("tier", "quick", "quick | thorough")
+	fs.Parse(args)
+	if *prop == "" {
+		fmt.Println("check needs -prop")
+		return 2
+	}
+	start := time.Now()
+	timeout := 10
+	if *tier == "thorough" {
+		timeout = 60
+	}
+	seed := 0
+	fmt.Sscanf(os.Getenv("VERIF_SEED"), "%d", &seed)
+	prog, sp, err := loadAll()
+	if err != nil {
+		fmt.Println("UNDECIDED: cannot load /repo:", err)
+		return 2
+	}
+	known, err := loadKnown(filepath.Join(verifDir, "known_findings.json"))
+	if err != nil {
+		fmt.Println("UNDECIDED: known_findings.json:", err)
+		return 2
+	}
+	activeKnown = known
+	var keys []string
+	for k, f := range sp.Funcs {
+		if f.Kind == "func" && !f.Trusted && specServes(f, *prop) {
+			keys = append(keys, k)
+		}
+	}
+	sort.Strings(keys)
+	if len(keys) == 0 {
+		fmt.Printf("UNDECIDED: no contracts serve %s\n", *prop)
+		return 2
+	}
+	var obls []*Obligation
+	var results []*FuncResult
+	undecided := []string{}
+	warnAll := map[string]int{}
+	trusted := map[string]bool{}
+	arithMath := []string{}
+	for _, k := range keys {
+		res := verifyFunction(prog, sp, k)
+		results = append(results, res)
+		if res.Fatal != "" {
+			undecided = append(undecided, res.Fatal)
+			continue
+		}
+		spec := sp.Funcs[k]
+		for w, n := range res.Warns {
+			warnAll[k+": "+w] += n
+		}
+		for _, t := range res.Trusted {
+			trusted[t] = true
+		}
+		if res.ArithMath {
+			arithMath = append(arithMath, k)
+		}
+		for _, o := range res.Obls {
+			if o.Kind == "safe" {
+				if !claimsSafety(spec, o.Sub) || !hasProp(spec.Props, *prop) {
+					continue
+				}
+				o.Props = spec.Props
+			} else if !hasProp(o.Props, *prop) {
+				continue
+			}
+			obls = append(obls, o)
+		}
+	}
+	if len(undecided) > 0 {
+		for _, u := range undecided {
+			fmt.Println("UNDECIDED:", u)
+		}
+		return 2
+	}
+	// known findings: split obligations into the excluded case and the rest
+	obls = applyKnown(obls, known, *prop, prog, sp)
+	dischargeAll(obls, timeout, runtime.NumCPU())
+
+	os.MkdirAll(filepath.Join(verifDir, "replays", *prop), 0o755)
+	violations := 0
+	discharged := 0
+	nonCover := 0
+	var reports []oblReport
+	var samples []interface{}
+	solverSecs := 0.0
+	bySolver := map[string]int{}
+	for _, o := range obls {
+		st := "none"
+		solver := ""
+		secs := 0.0
+		if o.Result != nil {
+			st, solver, secs = o.Result.Status, o.Result.Solver, o.Result.Secs
+		}
+		solverSecs += secs
+		reports = append(reports, oblReport{o.Name, o.Kind, st, solver, secs, o.Pos, o.Text, len(o.Query)})
+		if o.knownExpectedFail != nil {
+			// the excluded case of a known finding: expected to fail
+			if !o.Held() {
+				fmt.Printf("KNOWN-FINDING: property=%s %s [%s]\n", *prop, o.knownExpectedFail.What, o.knownExpectedFail.Obligation)
+			}
+			continue
+		}
+		if !o.Cover {
+			nonCover++
+		}
+		if o.Held() {
+			if !o.Cover {
+				discharged++
+				bySolver[solver]++
+			}
+			continue
+		}
+		violations++
+		path := writeReplay(prog, sp, *prop, o)
+		tail := ""
+		if !strings.HasSuffix(path, ".go") {
+			tail = " no-failing-input-found"
+		}
+		fmt.Printf("VIOLATION property=%s replay=%s obligation=%s status=%s%s\n", *prop, path, o.Name, st, tail)
+	}
+	for i, o := range obls {
+		if i%maxInt(1, len(obls)/5) == 0 && len(samples) < 6 {
+			samples = append(samples, map[string]interface{}{"obligation": o.Name, "kind": o.Kind, "clause": o.Text, "at": o.Pos, "smt_bytes": len(o.Query), "status": statusOf(o)})
+		}
+	}
+	var warns []string
+	for w, n := range warnAll {
+		warns = append(warns, fmt.Sprintf("%s (x%d)", w, n))
+	}
+	sort.Strings(warns)
+	var tb []string
+	for t := range trusted {
+		tb = append(tb, t)
+	}
+	sort.Strings(tb)
+	tb = append(tb, "go/types + go/ssa front end (x/tools v0.29.0, naive form)", "govc SSA->SMT encoding", "SMT solvers z3 4.8.12 / z3-new 5.1.0 / cvc5 1.0")
+	assumptions := []string{}
+	if len(arithMath) > 0 {
+		assumptions = append(assumptions, "signed machine arithmetic treated as mathematical (no overflow) in: "+strings.Join(arithMath, ", "))
+	}
+	assumptions = append(assumptions, "unsigned arithmetic is modelled exactly (mod 2^k)",
+		"panics are obligations, not control flow; recover() returns nil on the executions considered",
+		"Go memory model not modelled: fields proved to be accessed under their mutex are assumed race free",
+		"addresses of struct fields are not stored in the heap (pointer provenance by type)")
+	assumptions = append(assumptions, warns...)
+	ev := map[string]interface{}{
+		"property_id": *prop, "tier": *tier, "seed": seed, "level": "proof",
+		"coverage": map[string]interface{}{
+			"obligations": nonCover, "discharged": discharged,
+			"checker_cmd":  fmt.Sprintf("/verif/bin/govc check -prop %s -tier %s", *prop, *tier),
+			"trusted_base": tb,
+			"functions_under_contract": keys,
+			"by_solver":   bySolver,
+			"solver_secs": solverSecs,
+			"per_obligation": reports,
+			"samples":     samples,
+			"vacuity_covers": len(obls) - nonCover - countKnown(obls),
+			"timeout_s":   timeout,
+		},
+		"assumptions": assumptions,
+		"wall_s":      time.Since(start).Seconds(),
+		"violations":  violations,
+	}
+	os.MkdirAll(filepath.Join(verifDir, "evidence"), 0o755)
+	data, _ := json.MarshalIndent(ev, "", " ")
+	os.WriteFile(filepath.Join(verifDir, "evidence", *prop+".json"), data, 0o644)
+	fmt.Printf("%s: %d functions, %d obligations, %d discharged, %d violations, %.1fs\n", *prop, len(keys), nonCover, discharged, violations, time.Since(start).Seconds())
+	if violations > 0 {
+		return 1
+	}
+	return 0
+}
+
+func statusOf(o *Obligation) string {
+	if o.Result == nil {
+		return "none"
+	}
+	return o.Result.Status
+}
+
+func countKnown(obls []*Obligation) int {
+	n := 0
+	for _, o := range obls {
+		if o.knownExpectedFail != nil {
+			n++
+		}
+	}
+	return n
+}
+
+func maxInt(a, b int) int {
+	if a > b {
+		return a
+	}
+	return b
+}
